@@ -77,9 +77,13 @@ func (c taintCase) graph() (*gen.GraphBP, map[int]string) {
 			p.Sex = []string{"M"}
 		}
 		p.Events = append(p.Events,
-			gen.EventBP{Tag: "BIRT", Value: gen.Str(b.tok("event-value")), Date: gen.Str(b.tok("date")), Place: gen.Str(b.tok("place") + ", " + b.tok("country")), HasDate: true},
-			gen.EventBP{Tag: "DEAT", Date: "3 Sep 1901", Place: gen.Str(b.tok("place2")), HasDate: true,
+			gen.EventBP{Tag: "BIRT", Value: gen.Str(b.tok("event-value")), Date: gen.Str(b.tok("date")), Place: gen.Str(b.tok("place") + ", " + b.tok("country")), HasDate: true})
+		if !(ex(6) && i%3 == 2) {
+			// (with bit 6 every third person has no death and no readable birth date: a living
+			// person, who is rendered in some modes and orders of rendering and not in others)
+			p.Events = append(p.Events, gen.EventBP{Tag: "DEAT", Date: "3 Sep 1901", Place: gen.Str(b.tok("place2")), HasDate: true,
 				More: []*gen.NodeBP{{Tag: "CAUS", Value: gen.Str(b.tok("cause"))}, {Tag: "NOTE", Value: gen.Str(b.tok("event-note"))}}})
+		}
 		if ex(1) {
 			p.Events = append(p.Events, gen.EventBP{Tag: "RESI", Date: gen.Str("Abt. " + b.tok("date-with-keyword")), Place: gen.Str(b.tok("place3")), HasDate: true},
 				gen.EventBP{Tag: "OCCU", Value: gen.Str(b.tok("occupation"))}, gen.EventBP{Tag: "EVEN", Value: gen.Str(b.tok("even-value")), More: []*gen.NodeBP{{Tag: "TYPE", Value: gen.Str(b.tok("event-type"))}}})
@@ -252,16 +256,6 @@ func render(c taintCase) (out outputs, kinds map[int]string, fl *harness.Failure
 	for n, b := range res.Files {
 		out["publish:"+n] = b
 	}
-	// the same document object published again with other options: what the first publish
-	// left behind (caches on the document, package-level state) must not weaken the second
-	vis2 := map[string]string{"show": "placeholder", "placeholder": "hide", "hide": "show"}[c.Vis]
-	res2 := pub.Publish(doc, pub.All(vis2, 2))
-	if res2.Panic != "" || len(res2.Panics) > 0 || res2.Err != nil {
-		return nil, nil, harness.Failf("publish-failed", "publishing a second time (%s) failed: panic=%q render panics=%v err=%v", vis2, res2.Panic, res2.Panics, res2.Err)
-	}
-	for n, b := range res2.Files {
-		out["publish-again-"+vis2+":"+n] = b
-	}
 	// the diff report of the document against an edited copy of itself
 	g2, _ := c.graph()
 	if len(g2.People) > 0 {
@@ -272,17 +266,49 @@ func render(c taintCase) (out outputs, kinds map[int]string, fl *harness.Failure
 	if err != nil {
 		return nil, nil, harness.Failf("generator-text-rejected", "%v", err)
 	}
-	for _, show := range []string{html.DiffPageShowAll, html.DiffPageShowOnlyMatches} {
-		for _, sortBy := range []string{html.DiffPageSortWrittenName, html.DiffPageSortHighestSimilarity} {
-			opts := gedcom.NewIndividualNodesCompareOptions()
-			comparisons := doc.Individuals().Compare(doc2.Individuals(), opts)
-			progress := make(chan gedcom.Progress, 1000000)
-			page := html.NewDiffPage(comparisons, &gedcom.FilterFlags{}, "", show, sortBy, progress, gedcom.NewIndividualNodesCompareOptions(), html.LivingVisibility(c.Vis))
-			var buf bytes.Buffer
-			if _, err := page.WriteHTMLTo(&buf); err != nil {
-				return nil, nil, harness.Failf("diff-page-error", "%v", err)
+	diffs := func(label, vis string) *harness.Failure {
+		for _, show := range []string{html.DiffPageShowAll, html.DiffPageShowOnlyMatches} {
+			for _, sortBy := range []string{html.DiffPageSortWrittenName, html.DiffPageSortHighestSimilarity} {
+				opts := gedcom.NewIndividualNodesCompareOptions()
+				comparisons := doc.Individuals().Compare(doc2.Individuals(), opts)
+				progress := make(chan gedcom.Progress, 1000000)
+				page := html.NewDiffPage(comparisons, &gedcom.FilterFlags{}, "", show, sortBy, progress, gedcom.NewIndividualNodesCompareOptions(), html.LivingVisibility(vis))
+				var buf bytes.Buffer
+				if _, err := page.WriteHTMLTo(&buf); err != nil {
+					return harness.Failf("diff-page-error", "%v", err)
+				}
+				out[label+":"+show+"/"+sortBy] = buf.Bytes()
 			}
-			out["diff:"+show+"/"+sortBy] = buf.Bytes()
+		}
+		return nil
+	}
+	if f := diffs("diff", c.Vis); f != nil {
+		return nil, nil, f
+	}
+	// the same document objects rendered again with other options: what the earlier renderings
+	// left behind (caches on the documents and their individuals, package-level state) must not
+	// weaken the later ones
+	vis2 := map[string]string{"show": "placeholder", "placeholder": "hide", "hide": "show"}[c.Vis]
+	res2 := pub.Publish(doc, pub.All(vis2, 2))
+	if res2.Panic != "" || len(res2.Panics) > 0 || res2.Err != nil {
+		return nil, nil, harness.Failf("publish-failed", "publishing a second time (%s) failed: panic=%q render panics=%v err=%v", vis2, res2.Panic, res2.Panics, res2.Err)
+	}
+	for n, b := range res2.Files {
+		out["publish-again-"+vis2+":"+n] = b
+	}
+	if f := diffs("diff-again-"+vis2, vis2); f != nil {
+		return nil, nil, f
+	}
+	if c.Vis != "show" && vis2 != "show" {
+		res3 := pub.Publish(doc, pub.All("show", 1))
+		if res3.Panic != "" || len(res3.Panics) > 0 || res3.Err != nil {
+			return nil, nil, harness.Failf("publish-failed", "publishing a third time (show) failed: panic=%q render panics=%v err=%v", res3.Panic, res3.Panics, res3.Err)
+		}
+		for n, b := range res3.Files {
+			out["publish-last-show:"+n] = b
+		}
+		if f := diffs("diff-last-show", "show"); f != nil {
+			return nil, nil, f
 		}
 	}
 	// query results in HTML format
@@ -357,12 +383,12 @@ func check(c taintCase) (fl *harness.Failure, st stats) {
 
 func TestCheckTaint(t *testing.T) {
 	s := harness.NewSub("tainted-documents",
-		"documents in which every value kind (given names, surnames, suffixes, further names and all NAME parts, sex, event values, dates alone and behind a keyword, places and countries, causes, notes at three levels, occupations, event types, identifiers, custom tag values, inline sources, marriage and divorce data, source titles and five kinds of source properties incl. nested ones, optionally the pointers themselves) carries a unique token Tq<n>x<\"'&>y; published with a visibility and a random page-group mask, then the same document object again with another visibility and all page groups, plus the diff report (2 show x 2 sort) against an edited copy and six queries in HTML format; oracle: wherever a token id occurs, the bytes up to the closing y contain no raw < > \" ' and no bare &, every page tokenises and is well nested; each case is also run with benign values as a control; non-trivial = at least 5 distinct value kinds reach an output")
+		"documents in which every value kind (given names, surnames, suffixes, further names and all NAME parts, sex, event values, dates alone and behind a keyword, places and countries, causes, notes at three levels, occupations, event types, identifiers, custom tag values, inline sources, marriage and divorce data, source titles and five kinds of source properties incl. nested ones, optionally the pointers themselves) carries a unique token Tq<n>x<\"'&>y; published with a visibility and a random page-group mask, then the diff report (2 show x 2 sort) against an edited copy in that visibility, then the same document objects again with another visibility (all page groups, and the diff report), then a last time with everybody shown, and six queries in HTML format; in half of the documents every third person is living, so that it depends on the mode and the order of rendering whether a value was rendered before; oracle: wherever a token id occurs, the bytes up to the closing y contain no raw < > \" ' and no bare &, every page tokenises and is well nested; each case is also run with benign values as a control; non-trivial = at least 5 distinct value kinds reach an output")
 	s.Rapid(t, harness.Share(harness.Pick(2000, 100000)), 180, func(rt *rapid.T) {
 		c := taintCase{
 			People: rapid.IntRange(1, 4).Draw(rt, "people"), Families: rapid.IntRange(0, 2).Draw(rt, "families"), Sources: rapid.IntRange(0, 2).Draw(rt, "sources"),
 			Vis:  rapid.SampledFrom([]string{"show", "show", "hide", "placeholder"}).Draw(rt, "vis"),
-			Mask: rapid.SampledFrom([]int{63, 63, 63, 1, 2, 4, 8, 16, 32, 62, 31}).Draw(rt, "mask"), Extras: rapid.IntRange(0, 63).Draw(rt, "extras"),
+			Mask: rapid.SampledFrom([]int{63, 63, 63, 1, 2, 4, 8, 16, 32, 62, 31}).Draw(rt, "mask"), Extras: rapid.IntRange(0, 127).Draw(rt, "extras"),
 			PointerTaint: rapid.IntRange(0, 3).Draw(rt, "pointerTaint") == 0,
 		}
 		for _, benign := range []bool{true, false} {
